@@ -503,3 +503,10 @@ def r10(rr, repo):
     # uniqueness test on both sides (a destination that two sources map to would merge frames)
     uniq = [n for n in walk_scope(pt) if isinstance(n, ast.If) and 'len(' in U(n.test) and 'set(' in U(n.test) and any(isinstance(b, ast.Raise) for b in ast.walk(n))]
     rr.ob('duplicate sources or destinations in one spec are refused', bool(uniq), mod, uniq[0] if uniq else pt, key='mapping-unique')
+
+
+@rule('C02.R11', "the image bytes delivered are the image bytes published: whatever memory layout the published array has, the raw payload is the row-major flattening the consumer rebuilds the array from, and the "
+                 "decoder undoes the encoder case by case (shares C09.R8)")
+def r11(rr, repo):
+    from .c09 import r8 as c09r8
+    c09r8(rr, repo)
